@@ -24,13 +24,13 @@ SUMMARY = {
  "C13": "`InRange`, `CheckGP` (table of residues), `checkPrime`, `CheckDH`, `CheckDHParams` accept exactly the inputs of the specification (biconditional postconditions over `*big.Int` values, 2^1984 margin).",
  "C14": "`RSAPad`: call-site rules at `rsaEncrypt` and `EncryptBlocks` pin the layout handed to RSA (see level text); `reverseBytes` reverses in place (loop invariants incl. an element frame); `DecodeRSAPad`: xor, IGE decryption with zero IV, reversal, and `bytes.Equal(hash, SHA256(temp_key‖data))` must have returned true on the success path.",
  "C15": "`checkInput` against `crypto.CheckDH`'s contract; `SRP.Hash` / `SRP.NewHash`: `err == nil ⇒ bitlen(p) = 2048 ∧ gp(g, p) ∧ isprime(p) ∧ isprime((p−1)/2)` for the received (g, p). `SRP.Hash`: 24 call-site rules pin every argument of `hash` (5 calls), `xor32`, `FillBytes`, `computeXV` and `bigExp` (2 calls) to the specification's data flow, with ghosts for u, k, x, v and the hash results; `seq(A) = padbig(powmod(g, a, p))` as a postcondition, `M1` = result of the fifth hash call. Primitives (SHA-256, PBKDF2, padding, modular exponentiation) are uninterpreted; verifier acceptance is an undecided clause.",
- "C16": "Senders: exactly two writes, header (abridged: one byte or 0x7f+3 bytes; intermediate: LE32 length) then the payload bytes; receivers: header parsed, then one `ReadFull` of exactly the announced length into the buffer (padded variant strips len mod 4).",
+ "C16": "Senders: exactly two writes, header (abridged: one byte or 0x7f+3 bytes; intermediate: LE32 length) then the payload bytes; receivers: header parsed, then one `ReadFull` of exactly the announced length into the buffer (padded variant strips len mod 4). `Full.Read`/`Full.Write`: `readFull`/`writeFull` get the counter's entry value and the atomic increment happens exactly once whenever a frame was read/written (ghost count of `AddInt64`, wherever it is placed), so an error-code frame advances the receive counter like any other.",
  "C17": "`readLen`, `readFull`, `readAbridged`, `readIntermediate`, `checkProtocolError`: safety obligations plus `alloclimit = 16 MiB + 8` on arbitrary streams.",
  "C18": "`generateInit`: `err == nil ⇒ ¬reserved(init)`; `generateKeys`: header[0:56] = init ∧ ¬reserved(header), stream key/IV attributes equal header[8:40]/[40:56]; `getDecryptInit` reverses init[8:56]; `createStreams` keys; `Accept` decrypts with the stream keyed from the received bytes 8..56.",
  "C19": "`FakeTLS.Write`: every record passed to `writeRecord` has 1 ≤ len ≤ 65535, records partition the input in order, n == len(b) on success.",
- "C20": "`Put*`/`*` pairs of bin.Buffer: appended bytes = little-endian formula, decoders return the value and consume exactly the encoded length, `encodeBytes`/`decodeBytes` (253/254 boundary, padding to 4).",
+ "C20": "`Put*`/`*` pairs of bin.Buffer: appended bytes = little-endian formula, decoders return the value and consume exactly the encoded length, `encodeBytes`/`decodeBytes` (253/254 boundary, padding to 4). `Int128`/`Int256`/`PutInt128`/`PutInt256`: 16/32 raw bytes, element-wise; `Double`/`Int53`/`PutDouble`/`PutInt53`: 8 bytes; short input is an error that consumes nothing.",
  "C21": "50 generated decoders of package mt: safety obligations + `alloclimit = 1024` on arbitrary bytes.",
- "C22": "`Message.Decode`: 0 ≤ Bytes ≤ 1 MiB, body = next Bytes bytes, consumed 16+Bytes; `Message.Encode` refuses exactly what Decode refuses; `Result.Decode`, `UnencryptedMessage.Decode` consumed counts; `GZIP.Decode`: reader limited to 10 MiB and success ⇒ total < 10 MiB.",
+ "C22": "`Message.Decode`: 0 ≤ Bytes ≤ 1 MiB, body = next Bytes bytes, consumed 16+Bytes; `Message.Encode` refuses exactly what Decode refuses; `Result.Decode`, `UnencryptedMessage.Decode` consumed counts; `GZIP.Decode`: reader limited to 10 MiB and success ⇒ total < 10 MiB. `Message.Decode` also accepts every well-formed element (≥16 bytes, announced length ≤ 1 MiB inclusive, body present), so encoder and decoder agree on the boundary.",
  "C23": "Safety obligations for all `handle*` functions and `gzip`; call-site rules route `NotifyResult/NotifyError/NotifyAcks/storeSalt` under the decoded ids; `NotifyResult/NotifyError` call exactly `e.rpc[msgID]`; a handled pong leaves no entry for its id.",
  "C24": "`Do`: handler present under `req.MsgID` when `retryUntilAck` is called, absent on return; `Do$1` (the handler): `Decode`/`retryClose` only after winning the CAS; routing as in C23.",
  "C25": "`retryUntilAck`: ghost `sends` counts `e.send` calls, each with (MsgID, SeqNo, Input) of the request, loop invariant `sends == retries+1 ∧ retries < max(maxRetries,1)`, timer armed/re-armed with retryInterval; `NotifyAcks` removes exactly the acked ids (all of them) and registers nothing; `Do` never calls `send` itself.",
@@ -41,7 +41,7 @@ SUMMARY = {
  "C31": "`StoreSession` = `writeFileAtomic`: ghost state machine over the os calls (create temp in same dir, write all, sync, close, rename; temp removed on error).",
  "C32": "`computeParts`-style arithmetic (part size bounds, count = ceil(size/part), big-file threshold).",
  "C33": "See decision table.",
- "C34": "`largestCDNValidLimit`, `buildCDNRequestPlan`: every planned window satisfies the CDN constraints (4 KiB aligned, divides 1 MiB, within one MiB block) and the windows tile the requested range exactly.",
+ "C34": "`largestCDNValidLimit`, `buildCDNRequestPlan`: every planned window satisfies the CDN constraints (4 KiB aligned, divides 1 MiB, within one MiB block) and the windows tile the requested range exactly. `cdn.verifyChunk`: loop invariant 'the scan position is the chunk start or the end of the window last looked up', rule 'the window is looked up for the current position' — no stretch between two windows is skipped.",
  "C36": "`entitySorter.Less(i,j) ⇔ off_i < off_j ∨ (off_i == off_j ∧ len_i > len_j)` — fails for `off_i > off_j ∧ len_i > len_j` (known finding, class = that input region).",
  "C38": "`rleEncode`/`rleDecode`: `nooverflow` on the run counter, safety.",
  "C39": "See decision table.",
